@@ -15,5 +15,9 @@ CHECK = dict(
             dict(name="accept", run="^TestVerifC01Accept$", quick=10000, thorough=400000, shards_thorough=4),
             dict(name="framing", run="^TestVerifC01Framing$", quick=4000, thorough=200000, shards_thorough=6),
         ]),
+        dict(name="sockets", dir=D, src="C01/sockets", runs=[
+            dict(name="sockets", run="^TestVerifC01Sockets$", quick=400, thorough=6000, shards_quick=2, shards_thorough=6,
+                 timeout_quick=300, timeout_thorough=1500),
+        ]),
     ],
 )
